@@ -36,6 +36,8 @@ BUILD = os.path.join(VERIF, "build", TAG)
 COQB = os.path.join(BUILD, "coq")
 NCPU = min(16, os.cpu_count() or 4)
 OUTDIR = os.environ.get("VERIF_OUT", os.path.join(VERIF, "build", "out_" + TAG))
+# evidence of a run against another tree (VERIF_REPO) never overwrites the committed evidence
+EVDIR = os.path.join(VERIF, "evidence") if TAG == "main" else os.path.join(BUILD, "evidence")
 
 COMMON_TRUSTED = [
     "Coq 8.16.1 kernel incl. vm_compute (no native_compute); no axioms (Print Assumptions per theorem)",
@@ -480,7 +482,7 @@ def script_by_name(stream, name):
 
 
 def write_replay(prop, n, payload):
-    rd = os.path.join(VERIF, "evidence", "replays")
+    rd = os.path.join(EVDIR, "replays")
     os.makedirs(rd, exist_ok=True)
     path = os.path.join(rd, "%s_%d.json" % (prop, n))
     payload = dict(payload)
@@ -517,13 +519,22 @@ def known_findings():
     return {"known": [], "fixed": []}
 
 
+OBSERVED_PROPS = {"C01", "C02", "C04", "C06", "C07", "C08", "C09", "C10", "C11", "C12", "C14", "C15", "C16", "C17"}
+
+
 def theorem_info(prop):
     """obligations = theorems/lemmas/examples stated in Properties_<prop>.v"""
     p = os.path.join(VERIF, "coq", "Properties_%s.v" % prop)
     if not os.path.exists(p):
         return []
     text = re.sub(r"\(\*.*?\*\)", "", open(p).read(), flags=re.S)
-    return re.findall(r"^\s*(?:Theorem|Lemma|Corollary|Example)\s+(\w+)", text, flags=re.M)
+    names = re.findall(r"^\s*(?:Theorem|Lemma|Corollary|Example)\s+(\w+)", text, flags=re.M)
+    if prop in OBSERVED_PROPS:
+        # the observer this check evaluates on the library is proved of the model for every script
+        q = os.path.join(VERIF, "coq", "Properties_Observers.v")
+        t2 = re.sub(r"\(\*.*?\*\)", "", open(q).read(), flags=re.S)
+        names += re.findall(r"^\s*(?:Theorem|Lemma|Corollary|Example)\s+(\w+)", t2, flags=re.M)
+    return names
 
 
 def assumptions_from_log(lg):
@@ -555,7 +566,7 @@ def check_property(prop, tier, seed):
             build_failed = (ex.stage, ex.detail)
         if not build_failed:
             target = "Properties_%s.vo" % prop
-            ok, coq_log = coq_make([target])
+            ok, coq_log = coq_make([target] + (["Properties_Observers.vo"] if prop in OBSERVED_PROPS else []))
             if ok:
                 discharged = len(obligations)
             else:
@@ -745,8 +756,8 @@ def check_property(prop, tier, seed):
         "wall_s": round(time.time() - t0, 2),
         "violations": len(reported),
     }
-    os.makedirs(os.path.join(VERIF, "evidence"), exist_ok=True)
-    with open(os.path.join(VERIF, "evidence", "%s.json" % prop), "w") as f:
+    os.makedirs(EVDIR, exist_ok=True)
+    with open(os.path.join(EVDIR, "%s.json" % prop), "w") as f:
         json.dump(ev, f, indent=1)
     for l in known_lines:
         print(l)
